@@ -6,9 +6,10 @@ From Coq Require Import String Ascii.
 From Dastard Require Import Common.ZX Common.CaseLib C16.Model C16.Spec.
 
 Inductive obs :=
-| OPub (l : list (string * string))
+| OPub (l : list (string * value))
 | OWait (saved : bool)
 | OSave (snaps : list (list (name * Z))) (reads : list Z)    (* content ids; read id -1: start-up failed *)
+| ORest (l : list (string * value))
 | OSkip.   (* nothing was observed: updates sent before the SUB socket is known to be connected, and
               assignments made directly to the map in the runs that call saveState directly *)
 
@@ -37,6 +38,7 @@ Definition resolve (tb : list (Z * config)) (o : obs) : option out :=
   match o with
   | OPub l => Some (Published l)
   | OWait b => Some (Waited b)
+  | ORest l => Some (Restored l)
   | OSkip => None
   | OSave snaps reads =>
       match map_opt (resolve_dir tb) snaps,
@@ -47,11 +49,11 @@ Definition resolve (tb : list (Z * config)) (o : obs) : option out :=
   end.
 
 (* ---- order-insensitive comparisons ---- *)
-Definition pair_eqb (a b : string * string) : bool :=
-  String.eqb (fst a) (fst b) && String.eqb (snd a) (snd b).
-Definition subset_pairs (a b : list (string * string)) : bool :=
+Definition pair_eqb (a b : string * value) : bool :=
+  String.eqb (fst a) (fst b) && (snd a =? snd b).
+Definition subset_pairs (a b : list (string * value)) : bool :=
   forallb (fun x => existsb (pair_eqb x) b) a.
-Definition set_eqb (a b : list (string * string)) : bool :=
+Definition set_eqb (a b : list (string * value)) : bool :=
   (length a =? length b)%nat && subset_pairs a b && subset_pairs b a.
 
 (* configurations are maps with unique keys *)
@@ -79,6 +81,7 @@ Definition out_equiv (a b : out) : bool :=
   | Published x, Published y => set_eqb x y
   | Waited x, Waited y => Bool.eqb x y
   | Saved t1 r1, Saved t2 r2 => all2 fs_equiv t1 t2 && all2 opt_config_equiv r1 r2
+  | Restored x, Restored y => set_eqb x y
   | _, _ => false
   end.
 
@@ -113,11 +116,12 @@ Definition verdict (c : case) : Z * Z :=
   end.
 
 (* compact constructors for generated files *)
-Definition U (tag obj text : string) (l : list (string * string)) := (Update tag obj text, OPub l).
-Definition Ux (tag obj text : string) := (Update tag obj text, OSkip).
-Definition SA (l : list (string * string)) := (SendAll, OPub l).
+Definition U (tag : string) (obj text : value) (l : list (string * value)) := (Update tag obj text, OPub l).
+Definition Ux (tag : string) (obj text : value) := (Update tag obj text, OSkip).
+Definition SA (l : list (string * value)) := (SendAll, OPub l).
 Definition Wt (b : bool) := (Wait, OWait b).
-Definition Sv (now : string) (faults : list bool) (snaps : list (list (name * Z))) (reads : list Z) :=
+Definition Sv (now : value) (faults : list bool) (snaps : list (list (name * Z))) (reads : list Z) :=
   (SaveTick now faults, OSave snaps reads).
+Definition Rs (l : list (string * value)) := (Restart, ORest l).
 Definition mk (cfg : config) (d : list (name * Z)) (tb : list (Z * config)) (h : list (event * obs)) : case :=
   {| c_cfg := cfg; c_dir := d; c_table := tb; c_hist := h |}.
